@@ -11,6 +11,9 @@
 //!   * request / response parsers consumed at most 4096 bytes of the stream;
 //!   * an accepted value re-serialises (real serialiser) to bytes that parse to an equal
 //!     value which re-serialises to identical bytes.
+//!   * the verdict (Ok value / error class) of every uncut or EOF-cut delivery equals the
+//!     unfragmented slice parse of the same bytes, under every chunking class and with a
+//!     single chunk boundary at every offset; the round-trip re-parse also runs fragmented;
 //!   * (framing, an extension of the statement) an accepted record consumed exactly its
 //!     4-byte header plus the declared body length.
 
@@ -498,7 +501,7 @@ fn mutate(base: &Msg, bi: usize, vi: u64) -> Msg {
 }
 
 pub fn variants_per_message(thorough: bool) -> u64 {
-    if thorough { 40 } else { 8 }
+    if thorough { 40 } else { 6 }
 }
 
 /// Number of base messages.
